@@ -108,6 +108,11 @@ func rangeEval(c rc, fn *ssa.Function, a []int64, scale int64) (out rgOutcome, o
 			switch k.Value.Kind() {
 			case constant.Int:
 				n, exact := constant.Int64Val(k.Value)
+				if sc > 1 && (n > 2 || n < -2) {
+					// a constant of the arguments' type the representatives (-3 .. 3) do not
+					// surround: the table would not see both sides of it
+					return rgVal{kind: 4}, true
+				}
 				return rgVal{n: n * sc}, exact
 			case constant.Float:
 				f, _ := constant.Float64Val(k.Value)
